@@ -621,6 +621,14 @@ def tree_problem(rel, seen=None):
 
 def apply_lib_op(t, o, strict=False, count_mode=False):
     """Apply a real UnaryOperation object to an oracle table."""
+    try:
+        return _apply_lib_op(t, o, strict, count_mode)
+    except KeyError as e:
+        # the operation's expressions read a column the table lacks although its declared columns_required (code under test) fit
+        raise IllFormed(f"{o} reads column {e} that is not among {sorted(t.cols)}")
+
+
+def _apply_lib_op(t, o, strict=False, count_mode=False):
     from lsst.daf.relation import Calculation, Deduplication, Identity, Projection, Selection, Slice, Sort
 
     req = {c.qualified_name for c in o.columns_required}
@@ -888,6 +896,13 @@ def py_of_lib(e, row):
 
 
 def py_apply_lib_op(rows, o):
+    try:
+        return _py_apply_lib_op(rows, o)
+    except KeyError as e:
+        raise IllFormed(f"{o} reads column {e} that its input rows lack")
+
+
+def _py_apply_lib_op(rows, o):
     from lsst.daf.relation import Calculation, Deduplication, Identity, Projection, Selection, Slice, Sort
 
     if isinstance(o, Identity) or (_USER_FILTER and isinstance(o, _USER_FILTER[0])):
